@@ -335,6 +335,11 @@ def generate(ctx):
         dec = rng.integers(1, 40, size=leadshape + (n,) + shape_xy).astype(np.float64)
         top = rng.integers(50, 400, size=leadshape + (1,) + shape_xy).astype(np.float64)
         geo = top - np.cumsum(dec, axis=-3) + dec            # strictly decreasing along the level axis
+        # terrain below the reference level (negative orography; Dead Sea, or the negative lobes of a spectrally
+        # truncated orography): the contract is geometric, the sign of the height plays no role (seeded change C17-8)
+        below = [0.0, 1.0, 0.5, 1.0][r % 4]
+        geo = geo - below * (float(np.round(geo.max())) + 7.0)
+        ctx.count('surface-pressure:orography ' + {0.0: 'above', 1.0: 'below', 0.5: 'both sides of'}[below] + ' the reference level')
         first = geo[(0,) * lead]                               # (n, x, y)
         lo_, hi_ = first.min(axis=0), first.max(axis=0)
         u = rng.integers(-3, 20, size=shape_xy) / 16.0          # mostly between the levels, some beyond either end
